@@ -1,7 +1,7 @@
 """C19 - container objects refine their Python prototypes under any operation history."""
 from pyasn1 import error
 from pyasn1.codec.der import encoder as der_encoder
-from pyasn1.type import namedtype, tag, univ
+from pyasn1.type import constraint, namedtype, tag, univ
 
 from props.common import *
 from vfw import x690ref as R
@@ -124,6 +124,19 @@ def seqof_history(n_steps, ops, strict_range=False):
                     raise Skip()
                 o.sort(key=lambda v_: int(v_) // 2, reverse=(op == 11))
                 m = sorted(m, key=lambda v_: v_ // 2, reverse=(op == 11))
+            elif op == 13:
+                # a value OBJECT of a legitimate subtype (range-constrained) is stored; later plain Python values
+                # assigned to the same position are values of the declared component type, not of that leftover subtype
+                n = len(m or [])
+                if not (0 <= i <= n):
+                    raise Skip()
+                sub = univ.Integer().subtype(subtypeSpec=constraint.ValueRangeConstraint(0, 4))
+                o.setComponentByPosition(i, sub.clone(x % 5))
+                m = list(m or [])
+                if i == n:
+                    m.append(x % 5)
+                else:
+                    m[i] = x % 5
             elif op == 7:
                 o = o.clone(cloneValueFlag=True)
             elif op == 8:
@@ -623,8 +636,8 @@ OBLIGATIONS = [
         doc="SEQUENCE with a nested SEQUENCE filled member by member (incomplete in between), clone/clear/reads in between, vs dict of dicts; every 3-step history"),
     Obl("nrec4", nrec4, {"op0": I(0, 6), "x0": I(0, 9), "op1": I(0, 6), "x1": I(0, 9), "op2": I(0, 6), "x2": I(0, 9), "op3": I(0, 6), "x3": I(0, 9)},
         shards=[{"op0": C(a), "op1": C(b)} for a in range(7) for b in range(7)], thorough_budget=300, tiers=("thorough",)),
-    Obl("seqof2", seqof2, dict(_params(2, 12), strict_range=B), shards=_first_op_shards(12), budget=120, tiers=("quick", "thorough"), doc="SEQUENCE OF INTEGER vs list, every 2-step history"),
-    Obl("seqof3", seqof3, _params(3, 12), shards=[{"op0": C(a), "op1": C(b)} for a in range(13) for b in range(13)], thorough_budget=300, tiers=("thorough",)),
+    Obl("seqof2", seqof2, dict(_params(2, 13), strict_range=B), shards=_first_op_shards(13), budget=120, tiers=("quick", "thorough"), doc="SEQUENCE OF INTEGER vs list, every 2-step history"),
+    Obl("seqof3", seqof3, _params(3, 13), shards=[{"op0": C(a), "op1": C(b)} for a in range(14) for b in range(14)], thorough_budget=300, tiers=("thorough",)),
     Obl("sofrec3", sofrec3, dict((k, (I(0, 5) if k.startswith("op") else I(0, 2) if k.startswith("i") else I(0, 9))) for k in _params(3, 5)),
         shards=[{"op0": C(a), "op1": C(b)} for a in range(6) for b in range(6)], budget=120,
         doc="SEQUENCE OF SEQUENCE with elements instantiated through the container vs a list of dicts, every 3-step history"),
